@@ -270,11 +270,11 @@ func (lcp *LCPStateMachine) closeInternal(reason string) {
 		lcp.setState(LCPStateClosing)
 	case LCPStateOpened:
 		// This-Layer-Down
-		lcp.initializeRestartCount()
+		lcp.restartCount = lcp.config.MaxTerminate
 		lcp.sendTerminateRequest(reason)
 		lcp.setState(LCPStateClosing)
 	case LCPStateReqSent, LCPStateAckRcvd, LCPStateAckSent:
-		lcp.initializeRestartCount()
+		lcp.restartCount = lcp.config.MaxTerminate
 		lcp.sendTerminateRequest(reason)
 		lcp.setState(LCPStateClosing)
 	}
